@@ -27,11 +27,39 @@ import (
 func init() {
 	Registry["C14"] = runC14
 	Replayers["C14"] = func(raw []byte) string {
+		var out []string
+		// real DAGs are recorded by what built them
+		var probe map[string]any
+		json.Unmarshal(raw, &probe)
+		if _, isHand := probe["hand"]; isHand {
+			var hc c05Case
+			json.Unmarshal(raw, &hc)
+			h, ok := gen.HandByLabel(hc.Hand)
+			if !ok {
+				return "unknown hand-written DAG " + hc.Hand
+			}
+			c14ReplayOut = &out
+			c14Real(nil, h.Label, func() (*store.Store, cid.Cid, error) {
+				s := store.New()
+				root, _ := h.Build(s)
+				return s, root, nil
+			}, datamodel.Kind_Bytes, nil)
+			return joinLines(out)
+		}
+		if _, isFile := probe["writer"]; isFile {
+			var fc fileCase
+			json.Unmarshal(raw, &fc)
+			c14ReplayOut = &out
+			c14Real(nil, "file "+fc.String(), func() (*store.Store, cid.Cid, error) {
+				s, root, _, err := fc.build()
+				return s, root, err
+			}, datamodel.Kind_Bytes, nil)
+			return joinLines(out)
+		}
 		var c c14Case
 		if err := json.Unmarshal(raw, &c); err != nil {
 			return "bad case: " + err.Error()
 		}
-		var out []string
 		c.run(func(sig, detail string) { out = append(out, sig+" :: "+detail) }, nil)
 		return joinLines(out)
 	}
@@ -384,6 +412,18 @@ func runC14(r *core.Run) {
 			return s, root, err
 		}, datamodel.Kind_Bytes, files[i])
 	})
+	// hand-written file encodings (BlockSizes absent / fewer / more than links,
+	// FileSize absent, dag-pb leaves, packed sizes, empty root Data): files all
+	// the same
+	hands := gen.HandFamily()
+	core.ParallelFor(len(hands), workers, func(i int) {
+		h := hands[i]
+		c14Real(r, h.Label, func() (*store.Store, cid.Cid, error) {
+			s := store.New()
+			root, _ := h.Build(s)
+			return s, root, nil
+		}, datamodel.Kind_Bytes, c05Case{Kind: "hand", Hand: h.Label})
+	})
 	u := gen.Universe(8)
 	var masks []int
 	for m := 1; m < 1<<uint(len(u)); m++ {
@@ -411,9 +451,13 @@ func runC14(r *core.Run) {
 
 // c14Real reifies a real DAG root (dag-pb roots only) and checks kind and
 // substrate.
-func c14Real(r *core.Run, desc string, build func() (*store.Store, cid.Cid, error), kind datamodel.Kind, replay any) {
+func c14Real(r0 *core.Run, desc string, build func() (*store.Store, cid.Cid, error), kind datamodel.Kind, replay any) {
+	r := c14Sink{r: r0}
+	if r0 == nil {
+		r.out = c14ReplayOut
+	}
 	s, root, err := build()
-	r.Evaluations.Add(1)
+	r.count(0)
 	r.Distinct(desc)
 	if err != nil {
 		r.Violate("build-error", desc+": "+err.Error(), replay)
@@ -422,7 +466,7 @@ func c14Real(r *core.Run, desc string, build func() (*store.Store, cid.Cid, erro
 	if root.Prefix().Codec != cid.DagProtobuf {
 		return
 	}
-	r.States.Add(1)
+	r.count(2)
 	orig, _ := s.Raw(root)
 	ls := lsFor(s)
 	for _, how := range []string{"Reify", "unixfs-preload"} {
@@ -432,7 +476,7 @@ func c14Real(r *core.Run, desc string, build func() (*store.Store, cid.Cid, erro
 			return
 		}
 		n, err := openVia(how, ls, rn)
-		r.Transitions.Add(1)
+		r.count(1)
 		if err != nil {
 			r.Violate("real-reify-error "+how, desc+": "+err.Error(), replay)
 			continue
@@ -471,7 +515,7 @@ func c14Real(r *core.Run, desc string, build func() (*store.Store, cid.Cid, erro
 			} else if n3.Kind() != kind || n3.Length() != n.Length() {
 				r.Violate("real-kind reifying-linksystem "+how, fmt.Sprintf("%s: kind %v length %d, with the plain link system kind %v length %d", desc, n3.Kind(), n3.Length(), n.Kind(), n.Length()), replay)
 			}
-			r.Transitions.Add(1)
+			r.count(1)
 		}
 		// a reified node is not a dag-pb node: reifying it again (nested
 		// interpret-as clauses do this) returns it unchanged
@@ -483,10 +527,52 @@ func c14Real(r *core.Run, desc string, build func() (*store.Store, cid.Cid, erro
 				r.Violate("panic re-reify "+how+" "+again, fmt.Sprintf("%s: %v", desc, pv), replay)
 				continue
 			}
-			r.Transitions.Add(1)
+			r.count(1)
 			if err2 != nil || !same {
 				r.Violate("non-dagpb-identity reified "+again, fmt.Sprintf("%s: %s of the node returned by %s = (%T, %v), want that node itself (%T)", desc, again, how, n2, err2, n), replay)
 			}
 		}
+	}
+}
+
+// c14Sink lets c14Real report into a run or, when replaying, into a list.
+type c14Sink struct {
+	r   *core.Run
+	out *[]string
+}
+
+var c14ReplayOut *[]string
+
+func (k c14Sink) Violate(sig, detail string, replay any) {
+	if k.r != nil {
+		k.r.Violate(sig, detail, replay)
+	} else if k.out != nil {
+		*k.out = append(*k.out, sig+" :: "+detail)
+	}
+}
+func (k c14Sink) InternalError(msg string) {
+	if k.r != nil {
+		k.r.InternalError(msg)
+	} else if k.out != nil {
+		*k.out = append(*k.out, "internal: "+msg)
+	}
+}
+func (k c14Sink) Distinct(s string) bool {
+	if k.r != nil {
+		return k.r.Distinct(s)
+	}
+	return false
+}
+func (k c14Sink) count(which int) {
+	if k.r == nil {
+		return
+	}
+	switch which {
+	case 0:
+		k.r.Evaluations.Add(1)
+	case 1:
+		k.r.Transitions.Add(1)
+	case 2:
+		k.r.States.Add(1)
 	}
 }
